@@ -107,17 +107,19 @@ def reaches(case, argv) -> bool:
 
 def run_cases(ctx, cases, *, real_child=False):
     impls = [A.run_impl(c, ctx.scratch, real_child=real_child, want_cmdline=False) for c in cases]
-    ans = ctx.driver("Argv", [A.model_query(c) for c in cases])
+    # the extended model (op "runx"): it contains the base model and also re-parses values with braces
+    ans = ctx.driver("Argv", [A.model_query_x(c) for c in cases])
     for k, (c, i) in enumerate(zip(cases, impls)):
         a = ans[k] if ans is not None else None
+        braces = A.has_brace_values(c)
         if i["define"] is not None:
-            impl = {"error": i["define"]}
-            model = None if a is None else ({"error": A.MODEL_ERR.get(a["positions"]["err"])} if "err" in a.get("positions", {}) else {"argv": A.model_obs(a)})
+            impl = {"argv": {"error": i["define"]}}
+            model = None if a is None else {"argv": A.model_obs_x(a)}
             ctx.count("definition-rejected")
             ctx.judge(c, impl, model, True, nontrivial=False, what="shell.define")
             continue
-        impl = {"argv": i["argv"]}
-        model = None if a is None else {"argv": A.model_obs(a)}
+        impl = {"argv": {"error": A.canon_error(i["argv"]["error"], braces)} if isinstance(i["argv"], dict) else i["argv"]}
+        model = None if a is None else {"argv": A.model_obs_x(a, braces=braces)}
         spec_ok = reaches(c, i["argv"])
         if real_child and i["child"] is not None:
             spec_ok = spec_ok and reaches(c, i["child"])
@@ -125,7 +127,7 @@ def run_cases(ctx, cases, *, real_child=False):
             if model is not None:
                 model["child"] = model["argv"]
         elems = [e for _, e in A.str_elements(c)]
-        d = "D14" if A.rule_D14(c) else None
+        d = "D14" if A.rule_D14(c) else "D44" if A.rule_D44(c) else "D43" if A.rule_D43(c) else None
         for e in elems:
             ctx.count("elements")
             for ch, lab in ((" ", "space"), ("\t", "tab"), ("\n", "newline"), ("'", "squote"), ('"', "dquote"), ("\\", "backslash"), ("$", "dollar"), ("*", "star")):
@@ -138,7 +140,11 @@ def run_cases(ctx, cases, *, real_child=False):
             if not any(x in A.SHLEX_ACTIVE for x in e) and e and not e.isalnum():
                 ctx.count("elem-inert-special")
         if d:
-            ctx.count("rule:D14")
+            ctx.count("rule:" + d)
+        if braces:
+            ctx.count("case-with-brace-values")
+        if any("[" in e or "]" in e or "," in e for e in elems):
+            ctx.count("case-with-bracket-values")
         if isinstance(i["argv"], dict):
             ctx.count("impl-error:" + i["argv"]["error"])
         ctx.judge(c, impl, model, spec_ok, nontrivial=any(e and not e.isalnum() for e in elems), defect=d, what="str/Path elements in argv at subprocess.run")
@@ -195,14 +201,17 @@ def corpus(ctx):
 
 
 def gen(ctx):
+    if ctx.rng.random() < 0.3:  # brackets, commas and braces on an otherwise harmless alphabet (D43, D44)
+        c = A.gen_case(ctx.rng, word=A.safe_word, blank_sep_templated=False, blank_sep_dots=True, outargs=False, allow_bad_def=0.0)
+        return A.decorate_brackets_braces(ctx.rng, c)
     return A.gen_case(ctx.rng, word=A.adv_word, blank_sep_templated=False, blank_sep_dots=True, outargs=False)
 
 
 def correspondence(ctx):
     core.assert_repo_loaded()
     corpus(ctx)
-    shlex_direct(ctx, ctx.pick(250, 6000))
-    run_cases(ctx, [gen(ctx) for _ in range(ctx.pick(300, 10000))])
+    shlex_direct(ctx, ctx.pick(200, 6000))
+    run_cases(ctx, [gen(ctx) for _ in range(ctx.pick(250, 10000))])
     if not ctx.quick:
         run_cases(ctx, [gen(ctx) for _ in range(600)], real_child=True)
 
